@@ -195,6 +195,28 @@ theorem writeElems_ok : ∀ {elems : List Elem} {bs : List OutBuild}, writeElems
               simpa using hne
             · exact h1 e' he'
 
+theorem countRefs_none : ∀ {elems : List Elem}, countRefs elems = none → ∀ e ∈ elems, usesRsp e ≠ none
+  | [], _, e, he => by cases he
+  | x :: r, h, e, he => by
+    simp only [countRefs] at h
+    by_cases hph : x.rulename = phony
+    · rw [if_pos hph] at h
+      rcases List.mem_cons.1 he with he | he
+      · subst he
+        simp [usesRsp, hph]
+      · exact countRefs_none h e he
+    · rw [if_neg hph] at h
+      cases hatt : x.attached with
+      | none => simp [hatt] at h
+      | some ru =>
+        simp only [hatt] at h
+        split at h
+        · cases h
+        · rcases List.mem_cons.1 he with he | he
+          · subst he
+            simp [usesRsp, hph, hatt]
+          · exact countRefs_none h e he
+
 theorem goodOuts_of_all_good {elems : List Elem} (h : ∀ e ∈ elems, e.outputErrors = false) :
     goodOuts elems = elems.flatMap (·.outs) := by
   unfold goodOuts
@@ -301,10 +323,7 @@ theorem write_ok_rules {ops : List Op} {out : Out} (h : emit ops = .ok out) :
         rw [← this]
         exact List.mem_map.2 ⟨e, he, rfl⟩
       refine ⟨e.rulename, hrn, ?_⟩
-      have hsome : usesRsp e ≠ none := by
-        have := hnone
-        simp only [List.any_eq_true, not_exists, not_and] at this
-        simpa using this e he
+      have hsome : usesRsp e ≠ none := countRefs_none hnone e he
       by_cases hph : e.rulename = phony
       · left
         simp [lineRule, usesRsp, hph, slash_phony]
